@@ -379,7 +379,7 @@ def o7b(h, st):
 # ---------------------------------------------------------------------------------------------------------------------
 # P1  the term loop of get_exponentiated_qubit_operator_circuit for an operator with ANY number of terms (loop cut; callees replaced by their contracts)
 
-from tverif.engine import GhostList, Opaque, stub, snapshot
+from tverif.engine import GhostList, Opaque, stub, snapshot, StandIn
 from tverif.interp import GhostIterable, GSeq
 from tverif.ring import Poly
 
@@ -488,11 +488,11 @@ def p1(h, st):
     stub(h, CIRC, "Circuit.__init__", lambda a, k: None, log=init_calls)
     t = h.real("t")
 
-    class _Terms:
+    class _Terms(StandIn):
         def items(self_):
             return GSeq.atom("qubit_op.terms.items()", Opaque("generic term"))
 
-    class _Op:
+    class _Op(StandIn):
         terms = _Terms()
     out = h.call(AU, "get_exponentiated_qubit_operator_circuit", _Op(), t, st["variational"], st["order"], st["control"], st["return_phase"])
     h.shape("the decomposition is asked once, for the operator's terms", len(dec_calls) == 1 and isinstance(dec_calls[0][0][0], GSeq) and len(dec_calls[0][0]) >= 3)
